@@ -17,7 +17,7 @@ Line protocol for the server session model (domain `sess`).
         → st <status> cs <cseq|-> sh <sid:timeout|-> ch <chan|-> pb <Public methods|-> cl <0|1> <summary>     (or `noconn <summary>`)
 
   handlers mask bits: 1 describe, 2 announce, 4 setup, 8 play, 16 record, 32 pause, 64 getParameter, 128 setParameter
-  transports: comma list of <u|m|t>.<secure>.<mode 0|1|2>.<ports 0|1>.<il 0|1|2>.<ilA>
+  transports: comma list of <u|m|t>.<secure>.<mode 0|1|2>.<ports 0 | 1 + port id>.<il 0|1|2>.<ilA>
   summary: conns <open conn ids> sess <id:state:nMedias:proto;…|-> oc <opened> <closed>
 -/
 namespace Rtsp.Drv.Sess
@@ -35,7 +35,9 @@ def parseAlt (s : String) : Option TrAlt :=
     match (match p with | "u" => some Proto.udp | "m" => some Proto.mcast | "t" => some Proto.tcp | _ => none),
           mode.toNat?, il.toNat?, ilA.toNat? with
     | some p, some mode, some il, some ilA =>
-      some { proto := p, secure := sec == "1", mode := mode, ports := ports == "1", il := il, ilA := ilA }
+      match ports.toNat? with
+      | some pn => some { proto := p, secure := sec == "1", mode := mode, ports := pn != 0, port := pn - 1, il := il, ilA := ilA }
+      | none => none
     | _, _, _, _ => none
   | _ => none
 
